@@ -34,17 +34,24 @@ def generate(rng, tier):
             cands.append((big0, big0 + (1 << 32) + rng.choice([0, 0x2000, 0x10])))
             if rng.chance(1, 2):
                 cands.append((0x800000000, 0x800000000 + (1 << 33) + 0x10))
+        if rep % 4 == 1:
+            cands.append((0x400000000 + 0x1000 * rng.below(16), 0x400000000 + 0x20000))     # room for a base address 8 GiB below
         cands.append((M64 - 0x100, M64))
         if rng.chance(1, 2):
             cands.append((M64 - 0x300, M64 - 0x100))
         mods = {}
         for i, (st, en) in enumerate(cands):
             k = 2 + i
-            back = rng.choice([0, 0, 0x10, 0x1000])
-            base_avma = max(0, st - back)
+            back = rng.choice([0, 0, 0x10, 0x1000, "far", "above"])
+            if back == "far":
+                base_avma = st - (1 << 33) if st >= (1 << 33) else max(0, st - 0x1000)     # nothing of the image is within the 32-bit reach
+            elif back == "above":
+                base_avma = st + 0x10 if en - st > 0x20 else st                          # the first bytes lie below the base address
+            else:
+                base_avma = max(0, st - back)
             base_svma = rng.choice([0, 0x100000000])
             pres = rng.choice(["hdr", "eh", "debug"])
-            f = [dict(start=base_svma + (st - base_avma), len=en - st, rows=[(0, suites.std_row(arch, "frameless", k))])]
+            f = [dict(start=base_svma + max(st - base_avma, 0), len=en - max(st, base_avma), rows=[(0, suites.std_row(arch, "frameless", k))])]
             s.module_dwarf("M%d" % i, st, en, base_avma, base_svma, pres, f, rng)
             mods["M%d" % i] = dict(start=st, end=en, k=k, pres=pres, base=base_avma)
         unws = {}
@@ -66,7 +73,10 @@ def generate(rng, tier):
                 if mods[mid]["end"] - st >= (1 << 32):
                     chosen += [st + o for o in (1, 0x1fff, 0x2000, 0x2001, (1 << 31), (1 << 32) - 0x1001, (1 << 32) - 1 - (st - mods[mid]["base"]))]
             # beyond 4 GiB above a module's base address nothing can be looked up (documented width of relative addresses)
-            chosen = [a for a in chosen if not any(st <= a < mods[mid]["end"] and a - mods[mid]["base"] >= (1 << 32) for st, mid in cur.items())]
+            far = lambda a: any(st <= a < mods[mid]["end"] and a - mods[mid]["base"] >= (1 << 32) for st, mid in cur.items())
+            for st, mid in cur.items():
+                if mods[mid]["end"] - mods[mid]["base"] > (1 << 32):
+                    chosen += [mods[mid]["base"] + (1 << 32) + o for o in (0, 1, 0x40) if mods[mid]["base"] + (1 << 32) + o < mods[mid]["end"]]
             for a in chosen:
                 kind = rng.choice(["ip", "ra"])
                 addr = a if kind == "ip" else a + 1
@@ -79,8 +89,8 @@ def generate(rng, tier):
                 ln = s.add("unwind %s F %s %s %s S" % (u, kind, hx(addr), regs))
                 hit = None
                 for st, mid in cur.items():
-                    if st <= a < mods[mid]["end"]:
-                        hit = mid
+                    if st <= a < mods[mid]["end"] and 0 <= a - mods[mid]["base"] < (1 << 32):
+                        hit = mid          # 4 GiB and more above the base nothing is reachable: treated like no module at all
                 s.meta[ln] = {"expect": mods[hit]["k"] * gran if hit else None, "sp": sp, "bp": bp, "arch": arch,
                               "kind": kind}
                 s.tags[ln] = "%s:%s:%s:%s" % (arch, mods[hit]["pres"] if hit else "none", kind,
